@@ -31,7 +31,7 @@ class ResWorld(World):
     name = "W-res"
 
     def __init__(self, variant: str = "full", low_energy: bool = True, pairs: bool = True, prices: bool = False,
-                 mechs=("quiet", "small", "quiet"), idle_timeout: int = 120, gas: bool = False, name: str = "", atomic_pairs: bool = False):
+                 mechs=("quiet", "small", "quiet"), idle_timeout: int = 120, gas: bool = False, name: str = "", atomic_pairs: bool = False, v0_energy=None):
         super().__init__()
         self.pairs = pairs
         if name:
@@ -49,6 +49,8 @@ class ResWorld(World):
         b0 = mk_base(rn, "b0", S["X1"], stalls=1, station_id="bs")
         b1 = mk_base(rn, "b1", S["M1"], stalls=1, station_id=None)
         v0 = mk_vehicle(env, rn, "v0", S["A"], mechs[0], soc=0.5, energy=0.10 if (low_energy and mechs[0] != "ice") else None)
+        if v0_energy is not None:
+            v0 = mk_vehicle(env, rn, "v0", S["A"], mechs[0], energy=v0_energy)
         v1 = mk_vehicle(env, rn, "v1", S["N1"], mechs[1], energy=0.70 if mechs[1] == "small" else None)
         v2 = mk_vehicle(env, rn, "v2", S["X1"], mechs[2], soc=0.5, energy=0.05 if mechs[2] == "ice" else None)
         if prices:
